@@ -23,3 +23,15 @@ theorem nodup_subset_length_le {α : Type} [DecidableEq α] (l₁ l₂ : List α
 theorem seqsum_congr (f g : ℕ → ℤ) (n : ℕ) (h : ∀ k, k < n → f k = g k) :
     (Finset.range n).sum f = (Finset.range n).sum g :=
   Finset.sum_congr rfl (fun k hk => h k (Finset.mem_range.mp hk))
+
+/-- L4 (unit steps): a sequence whose consecutive entries differ by exactly one is `f 0 + j` at every position `j`. -/
+theorem unit_steps_closed_form (f : ℕ → ℤ) (m : ℕ) (h : ∀ i, i + 1 < m → f (i + 1) = f i + 1) :
+    ∀ j, j < m → f j = f 0 + j := by
+  intro j
+  induction j with
+  | zero => intro _; simp
+  | succ k ih =>
+    intro hk
+    have h1 : f (k + 1) = f k + 1 := h k hk
+    have h2 : f k = f 0 + k := ih (Nat.lt_of_succ_lt hk)
+    rw [h1, h2]; push_cast; exact Int.add_assoc _ _ _
